@@ -260,6 +260,20 @@ Definition stuck (p : program) (c : config) : Prop :=
   (exists t k, nth_error (thr c) t = Some k /\ k <> []) /\
   (forall c', ~ step p c c').
 
+(** Waits-for: a thread standing at a lock request waits for the holders of
+    that lock and, for a read request, for the pending writers (which are
+    served first: writer preference).  Used to state that there is no
+    PARTIAL deadlock either ([no_partial_deadlock] in LockProofs.v). *)
+Definition holds_lock (c : config) (t : tid) (c0 : lclass) : Prop :=
+  In t (readers (lk c c0)) \/ writer (lk c c0) = Some t.
+Definition at_acq (c : config) (t : tid) (c0 : lclass) (m : mode) : Prop :=
+  exists k, nth_error (thr c) t = Some (KS (SAcq c0 m) :: k).
+Inductive waits_for (c : config) : tid -> tid -> Prop :=
+| wf_holder : forall t t' c0 m,
+    at_acq c t c0 m -> holds_lock c t' c0 -> waits_for c t t'
+| wf_pending : forall t t' c0,
+    at_acq c t c0 R -> In t' (wq (lk c c0)) -> waits_for c t t'.
+
 (** Two distinct threads are both about to perform a shared access to the
     same location class, at least one of them a write. *)
 Definition race (c : config) : Prop :=
@@ -571,3 +585,199 @@ Definition policy_wf (pol : policy) : bool := forallb (fun x => rule_wf (snd x))
 
 Definition lockset_ok (pol : policy) (p : program) : bool :=
   policy_wf pol && check_program p (lockset_guard pol).
+
+(* ------------------------------------------------------------------------- *)
+(** * 6. Checks modulo known findings (gating only, NO soundness claim)       *)
+(* ------------------------------------------------------------------------- *)
+
+(** When [lock_order_ok] / [lockset_ok] is [false] on the current tree, the
+    verdict protocol needs to know whether every violation is a KNOWN one.
+    The following variants skip the thread roots named in [skip] and excuse
+    the access sites listed in [sites] (location class, write?, exact held
+    list).  They are decision procedures for "nothing else is wrong"; the
+    theorems of LockProofs.v do not apply to them. *)
+Definition root_named (p : program) (names : list string) (f : fid) : bool :=
+  match nth_error p f with
+  | Some d => existsb (String.eqb (fname d)) names
+  | None => false
+  end.
+
+Definition check_program_skip (p : program) (guard : held -> sk -> bool)
+           (skip : list string) : bool :=
+  forallb (fun f => if (is_entry p f || is_spawn p f) && negb (root_named p skip f)
+                    then check_root p guard f else true)
+          (seq 0 (List.length p)).
+
+Definition site := (loc * bool * held)%type.
+
+Definition site_eqb (l : loc) (w : bool) (h : held) (x : site) : bool :=
+  String.eqb l (fst (fst x)) && Bool.eqb w (snd (fst x)) &&
+  (if held_eq_dec h (snd x) then true else false).
+
+Definition masked_guard (pol : policy) (sites : list site) (h : held) (s : sk) : bool :=
+  lockset_guard pol h s ||
+  match s with
+  | SAcc l w RShared => existsb (site_eqb l w h) sites
+  | _ => false
+  end.
+
+Definition lock_order_ok_modulo (skip : list string) (p : program) : bool :=
+  check_program_skip p order_guard skip.
+
+Definition lockset_ok_modulo (pol : policy) (skip : list string) (sites : list site)
+           (p : program) : bool :=
+  policy_wf pol && check_program_skip p (masked_guard pol sites) skip.
+
+(** Per-root verdicts, for reports. *)
+Definition root_verdicts (p : program) (guard : held -> sk -> bool) : list (string * bool) :=
+  flat_map (fun f => match nth_error p f with
+                     | Some d => if fentry d || fspawn d
+                                 then [(fname d, check_root p guard f)] else []
+                     | None => []
+                     end) (seq 0 (List.length p)).
+
+(* ------------------------------------------------------------------------- *)
+(** * 7. Counter-example search: a deadlocking schedule computed in the model *)
+(* ------------------------------------------------------------------------- *)
+
+(** When [lock_order_ok] fails because of a re-entrant read acquisition of
+    [target] (the handle lock), [witness] computes a reachable configuration
+    of the shape "T0 holds R and requests R again, T1 is a pending writer".
+    [outs] searches, by structural recursion with inlined calls, the branch
+    choices (one [bool] per [SAlt] met) that lead a thread to its (k+1)-th
+    request of [target]; [drive] replays choices with [exec_step]. *)
+Inductive outcome := ONorm (k : nat) | OExit (n k : nat) | OFound.
+
+Definition outcome_eqb (a b : outcome) : bool :=
+  match a, b with
+  | ONorm k, ONorm k' => Nat.eqb k k'
+  | OExit n k, OExit n' k' => Nat.eqb n n' && Nat.eqb k k'
+  | OFound, OFound => true
+  | _, _ => false
+  end.
+
+Definition opath := (outcome * list bool)%type.
+
+Fixpoint add_outs (a b : list opath) : list opath :=
+  match a with
+  | [] => b
+  | x :: a' =>
+      let b' := add_outs a' b in
+      if existsb (fun y => outcome_eqb (fst x) (fst y)) b' then b' else x :: b'
+  end.
+
+Section Witness.
+  Variable p : program.
+  Variable target : lclass.
+
+  Fixpoint outs (fuel : nat) (s : sk) (k : nat) : list opath :=
+    match fuel with
+    | 0 => []
+    | S fuel' =>
+      match s with
+      | SAcq c _ =>
+          if lclass_eq_dec c target
+          then match k with 0 => [(OFound, [])] | S k' => [(ONorm k', [])] end
+          else [(ONorm k, [])]
+      | SCall f =>
+          match body p f with
+          | Some b => filter (fun x => match fst x with OExit _ _ => false | _ => true end)
+                             (outs fuel' b k)
+          | None => []
+          end
+      | SSeq s1 s2 =>
+          fold_right (fun x acc =>
+             match fst x with
+             | ONorm k1 => add_outs (map (fun y => (fst y, snd x ++ snd y)) (outs fuel' s2 k1)) acc
+             | _ => add_outs [x] acc
+             end) [] (outs fuel' s1 k)
+      | SAlt s1 s2 =>
+          add_outs (map (fun x => (fst x, false :: snd x)) (outs fuel' s1 k))
+                   (map (fun x => (fst x, true :: snd x)) (outs fuel' s2 k))
+      | SLoop b =>
+          fold_right (fun x acc =>
+             match fst x with
+             | ONorm k1 =>
+                 if k1 <? k
+                 then add_outs (map (fun y => (fst y, snd x ++ snd y)) (outs fuel' (SLoop b) k1)) acc
+                 else acc
+             | _ => add_outs [x] acc
+             end) [] (outs fuel' b k)
+      | SBlock b =>
+          fold_right (fun x acc =>
+             match fst x with
+             | OExit 0 k1 => add_outs [(ONorm k1, snd x)] acc
+             | OExit (S n) k1 => add_outs [(OExit n k1, snd x)] acc
+             | _ => add_outs [x] acc
+             end) [] (outs fuel' b k)
+      | SExit n => [(OExit n k, [])]
+      | SGo _ => []          (* paths that spawn a third thread are not used *)
+      | _ => [(ONorm k, [])]
+      end
+    end.
+
+  Definition find_choices (fuel : nat) (f : fid) (k : nat) : option (list bool) :=
+    match find (fun x => outcome_eqb (fst x) OFound) (outs fuel (SCall f) k) with
+    | Some x => Some (snd x)
+    | None => None
+    end.
+
+  (** Move thread [t] until it stands at a request of [target] (or cannot
+      move), taking the next choice at every [SAlt]. *)
+  Fixpoint drive (fuel : nat) (c : config) (t : tid) (ch : list bool) : config * list bool :=
+    match fuel with
+    | 0 => (c, ch)
+    | S fuel' =>
+      match nth_error (thr c) t with
+      | Some (KS (SAcq c0 _) :: _) =>
+          if lclass_eq_dec c0 target then (c, ch)
+          else match exec_step p c (t, false) with
+               | Some c' => drive fuel' c' t ch
+               | None => (c, ch)
+               end
+      | Some (KS (SAlt _ _) :: _) =>
+          match ch with
+          | b :: ch' => match exec_step p c (t, b) with
+                        | Some c' => drive fuel' c' t ch'
+                        | None => (c, ch)
+                        end
+          | [] => (c, ch)
+          end
+      | Some _ =>
+          match exec_step p c (t, false) with
+          | Some c' => drive fuel' c' t ch
+          | None => (c, ch)
+          end
+      | None => (c, ch)
+      end
+    end.
+
+  (** T0 runs [r] up to its second request of [target] (taking the first),
+      T1 runs [w] up to its first request and makes it. *)
+  Definition witness (fuel : nat) (r w : fid) : option config :=
+    match find_choices fuel r 1, find_choices fuel w 0 with
+    | Some chr, Some chw =>
+        let c0 := init [r; w] in
+        let '(c1, ch1) := drive fuel c0 0 chr in
+        match exec_step p c1 (0, false) with
+        | Some c2 =>
+            let '(c3, _) := drive fuel c2 0 ch1 in
+            let '(c4, _) := drive fuel c3 1 chw in
+            exec_step p c4 (1, false)
+        | None => None
+        end
+    | _, _ => None
+    end.
+
+  (** The shape of the stuck state of [stuck_example]. *)
+  Definition reentrant_shape_b (c : config) : bool :=
+    match thr c with
+    | [KS (SAcq c0 R) :: _; KS (SAcq c1 W) :: _] =>
+        (if lclass_eq_dec c0 target then true else false) &&
+        (if lclass_eq_dec c1 target then true else false) &&
+        (match readers (lk c target) with [t] => Nat.eqb t 0 | _ => false end) &&
+        is_none (writer (lk c target)) &&
+        (match wq (lk c target) with [t] => Nat.eqb t 1 | _ => false end)
+    | _ => false
+    end.
+End Witness.
